@@ -111,6 +111,7 @@ Section LevelCorrect.
     (fst p,
      if negb (f_exported (fst p)) then
        (if f_embedded (fst p) then
+          if has_secure (f_tag (fst p)) then wipe_embedded (snd p) else
           match snd p with
           | VStruct _ | VTime _ => scrub (snd p)
           | VPtr (Some y) => match kind_of y with KStruct => VPtr (Some (scrub y)) | _ => snd p end
@@ -134,6 +135,7 @@ Section LevelCorrect.
         * rewrite (Hrp (VMap o) W D eq_refl). reflexivity.
         * rewrite (Hrp (VIface o) W D eq_refl). reflexivity.
     - destruct (f_embedded m); [|reflexivity].
+      destruct (has_secure (f_tag m)); [reflexivity|].
       destruct x as [s|z|b|t|fs|o|o|o|o|l]; try reflexivity.
       + rewrite (Hrs (VTime t) W D eq_refl). reflexivity.
       + rewrite (Hrs (VStruct fs) W D eq_refl). reflexivity.
@@ -258,33 +260,137 @@ Proof. intros x. destruct x; try (right; apply (is_zero_zero _)). left. reflexiv
 Lemma sec_at_time : forall t x, ~ sec_at (VTime t) x.
 Proof. intros t x S. inversion S. Qed.
 
+
+Lemma hiddenb_spec : forall x, hiddenb x = true <-> hidden x.
+Proof.
+  intros x. unfold hidden. destruct x as [s|z|b|t|fs|o|o|o|o|l]; simpl;
+    try (split; [intros H; right; exact H | intros [H|H]; [discriminate | exact H]]).
+  rewrite orb_true_iff, !N.eqb_eq. split.
+  - intros [H|H]; [left; subst; reflexivity | right; assumption].
+  - intros [H|H]; [left; inversion H; reflexivity | right; assumption].
+Qed.
+
+(* ---------- wipeEmbedded ---------- *)
+(* statements about a value and, when it is a non-nil pointer, about its pointee (an embedded *struct) *)
+Definition and_pointee (Q : gv -> Prop) (v : gv) : Prop :=
+  Q v /\ match v with VPtr (Some x) => Q x | _ => True end.
+
+Lemma and_pointee_ind : forall Q : gv -> Prop,
+  (forall v, (forall fs, v <> VStruct fs) -> Q v) ->
+  (forall fs, Forall (fun p => and_pointee Q (snd p)) fs -> Q (VStruct fs)) ->
+  forall v, and_pointee Q v.
+Proof.
+  intros Q Hleaf Hstruct.
+  induction v as [s|z|b|t|fs IH| |x IH| |l IH| |l IH| |x IH|l IH] using gv_ind';
+    try (split; [apply Hleaf; intros fs0; discriminate | exact I]).
+  - split; [apply Hstruct; exact IH | exact I].
+  - split; [apply Hleaf; intros fs0; discriminate | exact (proj1 IH)].
+Qed.
+
+Lemma wipe_promoted_hidden' : forall v, and_pointee (fun v => forall y, promoted (wipe v) y -> hidden y) v.
+Proof.
+  apply and_pointee_ind.
+  - intros v Hv y P. destruct v; simpl in P; try (inversion P; fail). exfalso. apply (Hv fs). reflexivity.
+  - intros fs IH y P. simpl in P. rewrite Forall_forall in IH.
+    inversion P as [fs' m y' Hin He | fs' m x y' Hin He Hm Px | fs' m x y' Hin He Hm Px]; subst;
+      apply in_map_iff in Hin; destruct Hin as [[mq xq] [Hq Hin]]; simpl in Hq;
+      injection Hq as Hq1 Hq2; subst mq; rewrite He in Hq2; destruct (IH (m, xq) Hin) as [IHq IHp]; simpl in IHq, IHp.
+    + subst. apply hide_hidden.
+    + rewrite Hm in Hq2. destruct xq as [s|z0|b|t|fs0|o|o|o|o|l]; subst x; try (apply IHq; exact Px).
+      destruct o as [y0|]; [|apply IHq; exact Px]. inversion Px.
+    + rewrite Hm in Hq2. destruct xq as [s|z0|b|t|fs0|o|o|o|o|l]; try (simpl in Hq2; discriminate).
+      destruct o as [y0|]; [|simpl in Hq2; discriminate].
+      injection Hq2 as Hq2. subst x. apply IHp. exact Px.
+Qed.
+
+Lemma wipe_promoted_hidden : forall v y, promoted (wipe v) y -> hidden y.
+Proof. intros v. exact (proj1 (wipe_promoted_hidden' v)). Qed.
+
+Lemma blank_wipe' : forall v, and_pointee (fun v => blank (wipe v) = blank v) v.
+Proof.
+  apply and_pointee_ind.
+  - intros v Hv. destruct v; try reflexivity. exfalso. apply (Hv fs). reflexivity.
+  - intros fs IH. simpl. f_equal. rewrite map_map. apply map_ext_in. intros [m x] Hin. simpl.
+    rewrite Forall_forall in IH. destruct (IH (m, x) Hin) as [IHx IHp]. simpl in IHx, IHp.
+    destruct (f_exported m); [reflexivity|]. destruct (f_embedded m); [|reflexivity].
+    destruct x as [s|z0|b|t|fs0|o|o|o|o|l0]; try (f_equal; exact IHx); try reflexivity.
+    destruct o as [y0|]; [|reflexivity]. rewrite IHp. reflexivity.
+Qed.
+
+Lemma blank_wipe : forall v, blank (wipe v) = blank v.
+Proof. intros v. exact (proj1 (blank_wipe' v)). Qed.
+
+Lemma blank_wipe_embedded : forall x, blank_embedded (wipe_embedded x) = blank_embedded x.
+Proof.
+  intros x. destruct x as [s|z0|b|t|fs0|o|o|o|o|l0]; try reflexivity.
+  - apply (blank_wipe (VStruct fs0)).
+  - destruct o as [y|]; [|reflexivity]. simpl. rewrite blank_wipe. reflexivity.
+Qed.
+
+Lemma promoted_wipe_embedded : forall x y,
+  (promoted (wipe_embedded x) y \/ exists x', wipe_embedded x = VPtr (Some x') /\ promoted x' y) -> hidden y.
+Proof.
+  intros x y [P|[x' [E P]]].
+  - destruct x as [s|z0|b|t|fs0|o|o|o|o|l0]; simpl in P; try (inversion P; fail).
+    + apply (wipe_promoted_hidden (VStruct fs0) y P).
+    + destruct o; inversion P.
+  - destruct x as [s|z0|b|t|fs0|o|o|o|o|l0]; simpl in E; try discriminate.
+    destruct o as [y0|]; [|discriminate]. injection E as E. subst x'. apply (wipe_promoted_hidden y0 y P).
+Qed.
+
+Lemma wipedb_spec' : forall v, and_pointee (fun v => wipedb v = true <-> (forall y, promoted v y -> hidden y)) v.
+Proof.
+  apply and_pointee_ind.
+  - intros v Hv. destruct v; try (split; [intros _ y P; inversion P | reflexivity]). exfalso. apply (Hv fs). reflexivity.
+  - intros fs IH. rewrite Forall_forall in IH. simpl. rewrite forallb_forall. split.
+    + intros B y P.
+      inversion P as [fs' m y' Hin He | fs' m x y' Hin He Hm Px | fs' m x y' Hin He Hm Px]; subst;
+        pose proof (B _ Hin) as B'; simpl in B'; rewrite He in B'; destruct (IH _ Hin) as [IHq IHp]; simpl in IHq, IHp.
+      * apply hiddenb_spec. exact B'.
+      * rewrite Hm in B'. destruct x as [s|z0|b|t|fs0|o|o|o|o|l]; try (inversion Px; fail).
+        apply (proj1 IHq B' y Px).
+      * rewrite Hm in B'. apply (proj1 IHp B' y Px).
+    + intros H [m x] Hin. simpl. destruct (IH (m, x) Hin) as [IHq IHp]. simpl in IHq, IHp.
+      destruct (f_exported m) eqn:He.
+      * apply hiddenb_spec. apply H. eapply P_here; eassumption.
+      * destruct (f_embedded m) eqn:Hm; [|reflexivity].
+        destruct x as [s|z0|b|t|fs0|o|o|o|o|l]; try reflexivity.
+        -- apply IHq. intros y P. apply H. eapply P_embed; eassumption.
+        -- destruct o as [y0|]; [|reflexivity]. apply IHp. intros y P. apply H. eapply P_embed_ptr; eassumption.
+Qed.
+
+Lemma wipedb_spec : forall v, wipedb v = true <-> (forall y, promoted v y -> hidden y).
+Proof. intros v. exact (proj1 (wipedb_spec' v)). Qed.
+
 Lemma scrub_sec_hidden : forall v x, sec_at (scrub v) x -> hidden x.
 Proof.
   induction v as [s|z|b|t|fs IH| |y IH| |l IH| |l IH| |y IH|l IH] using gv_ind'; intros x S; simpl in S;
     try (inversion S; fail).
   - (* struct *)
     rewrite Forall_forall in IH.
-    inversion S as [fs' m y Hin He Hs | fs' m y z Hin He Hs Hz | fs' m y z Hin He Hm Hk Hz
-                    | fs' m y z Hin He Hm Hk Hz | | | |]; subst;
+    inversion S as [fs' m y Hin He Hs | fs' m y z Hin He Hs Hz | fs' m y z Hin He Hm Hs Hk Hz
+                    | fs' m y z Hin He Hm Hs Hk Hz | fs' m y z Hin He Hm Hs Hp | fs' m y z Hin He Hm Hs Hp | | | |]; subst;
       apply in_map_iff in Hin; destruct Hin as [[mq xq] [Hq Hin]]; simpl in Hq;
       injection Hq as Hq1 Hq2; subst mq; rewrite He in Hq2; simpl in Hq2;
       pose proof (IH (m, xq) Hin) as IHq; simpl in IHq.
     + rewrite Hs in Hq2. subst. apply hide_hidden.
     + rewrite Hs in Hq2. subst. apply IHq. assumption.
-    + rewrite Hm in Hq2.
+    + rewrite Hm, Hs in Hq2.
       destruct xq as [s|z0|b|t|fs0|o|o|o|o|l]; subst y; try (simpl in Hk; discriminate).
       * apply IHq. exact Hz.
       * apply IHq. exact Hz.
       * destruct o as [y0|]; [|discriminate]. destruct (kind_of y0); discriminate.
-    + rewrite Hm in Hq2.
+    + rewrite Hm, Hs in Hq2.
       destruct xq as [s|z0|b|t|fs0|o|o|o|o|l]; try discriminate.
       destruct o as [y0|]; [|discriminate].
       destruct (kind_of y0) eqn:K0; try (injection Hq2 as Hq2; subst; rewrite K0 in Hk; discriminate).
       injection Hq2 as Hq2. subst y. apply IHq. simpl. constructor. exact Hz.
+    + rewrite Hm, Hs in Hq2. apply (promoted_wipe_embedded xq x). left. rewrite Hq2. exact Hp.
+    + rewrite Hm, Hs in Hq2. apply (promoted_wipe_embedded xq x). right. exists y. split; assumption.
   - inversion S; subst. eapply IH; eassumption.
-  - rewrite Forall_forall in IH. inversion S as [| | | | |l' y z Hin Hz| |]; subst.
+  - rewrite Forall_forall in IH. inversion S as [| | | | | | |l' y z Hin Hz| |]; subst.
     apply in_map_iff in Hin. destruct Hin as [q [<- Hin]]. eapply IH; eassumption.
-  - rewrite Forall_forall in IH. inversion S as [| | | | | |l' k y z Hin Hz|]; subst.
+  - rewrite Forall_forall in IH. inversion S as [| | | | | | | |l' k y z Hin Hz|]; subst.
     unfold map_snd in Hin. apply in_map_iff in Hin. destruct Hin as [q [Hq Hin]]. inversion Hq; subst.
     eapply IH; eassumption.
   - inversion S; subst. eapply IH; eassumption.
@@ -298,6 +404,7 @@ Proof.
     destruct (f_exported m); simpl.
     + destruct (has_secure (f_tag m)); [reflexivity|]. f_equal. exact IHx.
     + destruct (f_embedded m); [|reflexivity].
+      destruct (has_secure (f_tag m)); [rewrite blank_wipe_embedded; reflexivity|].
       destruct x as [s|z0|b|t|fs0|o|o|o|o|l0]; try reflexivity.
       * f_equal. exact IHx.
       * destruct o as [y0|]; [|reflexivity]. destruct (kind_of y0) eqn:K; try (rewrite K; reflexivity).
@@ -313,33 +420,28 @@ Proof.
 Qed.
 
 (* ---------- the boolean monitor is the declarative statement ---------- *)
-Lemma hiddenb_spec : forall x, hiddenb x = true <-> hidden x.
-Proof.
-  intros x. unfold hidden. destruct x as [s|z|b|t|fs|o|o|o|o|l]; simpl;
-    try (split; [intros H; right; exact H | intros [H|H]; [discriminate | exact H]]).
-  rewrite orb_true_iff, !N.eqb_eq. split.
-  - intros [H|H]; [left; subst; reflexivity | right; assumption].
-  - intros [H|H]; [left; inversion H; reflexivity | right; assumption].
-Qed.
 
 Lemma scrubbedb_sound : forall v, scrubbedb v = true -> forall x, sec_at v x -> hidden x.
 Proof.
   induction v as [s|z|b|t|fs IH| |y IH| |l IH| |l IH| |y IH|l IH] using gv_ind'; intros B x S; simpl in B;
     try (inversion S; fail).
   - rewrite Forall_forall in IH. rewrite forallb_forall in B.
-    inversion S as [fs' m y Hin He Hs | fs' m y z Hin He Hs Hz | fs' m y z Hin He Hm Hk Hz
-                    | fs' m y z Hin He Hm Hk Hz | | | |]; subst;
+    inversion S as [fs' m y Hin He Hs | fs' m y z Hin He Hs Hz | fs' m y z Hin He Hm Hs Hk Hz
+                    | fs' m y z Hin He Hm Hs Hk Hz | fs' m y z Hin He Hm Hs Hp | fs' m y z Hin He Hm Hs Hp | | | |]; subst;
       pose proof (B _ Hin) as B'; simpl in B'; rewrite He in B'; simpl in B'; pose proof (IH _ Hin) as IHq; simpl in IHq.
     + rewrite Hs in B'. apply hiddenb_spec. assumption.
     + rewrite Hs in B'. apply (IHq B' x Hz).
-    + rewrite Hm in B'. destruct y as [s|z0|b|t|fs0|o|o|o|o|l0]; try discriminate.
+    + rewrite Hm, Hs in B'. destruct y as [s|z0|b|t|fs0|o|o|o|o|l0]; try discriminate.
       * inversion Hz.
       * apply (IHq B' x Hz).
-    + rewrite Hm, Hk in B'. apply IHq; [exact B' | constructor; exact Hz].
+    + rewrite Hm, Hs, Hk in B'. apply IHq; [exact B' | constructor; exact Hz].
+    + rewrite Hm, Hs in B'. destruct y as [s|z0|b|t|fs0|o|o|o|o|l0]; try (inversion Hp; fail).
+      apply (proj1 (wipedb_spec (VStruct fs0)) B' x Hp).
+    + rewrite Hm, Hs in B'. simpl in B'. apply (proj1 (wipedb_spec y) B' x Hp).
   - inversion S; subst. apply IH; assumption.
-  - rewrite Forall_forall in IH. rewrite forallb_forall in B. inversion S as [| | | | |l' y z Hin Hz| |]; subst.
+  - rewrite Forall_forall in IH. rewrite forallb_forall in B. inversion S as [| | | | | | |l' y z Hin Hz| |]; subst.
     apply (IH y Hin (B y Hin) x Hz).
-  - rewrite Forall_forall in IH. rewrite forallb_forall in B. inversion S as [| | | | | |l' k y z Hin Hz|]; subst.
+  - rewrite Forall_forall in IH. rewrite forallb_forall in B. inversion S as [| | | | | | | |l' k y z Hin Hz|]; subst.
     apply (IH (k, y) Hin (B (k, y) Hin) x Hz).
   - inversion S; subst. apply IH; assumption.
 Qed.
@@ -354,10 +456,15 @@ Proof.
       * apply hiddenb_spec. apply H. eapply SA_here; eassumption.
       * apply IHx. intros y Hy. apply H. eapply SA_field; eassumption.
     + destruct (f_embedded m) eqn:Hm; [|reflexivity].
-      destruct x as [s|z0|b|t|fs0|o|o|o|o|l0]; try reflexivity.
-      * apply IHx. intros y Hy. apply H. eapply SA_embed; try eassumption. reflexivity.
-      * destruct o as [y0|]; [|reflexivity]. destruct (kind_of y0) eqn:K; try reflexivity.
-        simpl in IHx. apply IHx. intros y Hy. inversion Hy; subst. apply H. eapply SA_embed_ptr; eassumption.
+      destruct (has_secure (f_tag m)) eqn:Hs.
+      * destruct x as [s|z0|b|t|fs0|o|o|o|o|l0]; try reflexivity.
+        -- apply (proj2 (wipedb_spec (VStruct fs0))). intros y Hy. apply H. eapply SA_embed_tagged; eassumption.
+        -- destruct o as [y0|]; [|reflexivity]. simpl. apply (proj2 (wipedb_spec y0)). intros y Hy. apply H.
+           eapply SA_embed_tagged_ptr; eassumption.
+      * destruct x as [s|z0|b|t|fs0|o|o|o|o|l0]; try reflexivity.
+        -- apply IHx. intros y Hy. apply H. eapply SA_embed; try eassumption. reflexivity.
+        -- destruct o as [y0|]; [|reflexivity]. destruct (kind_of y0) eqn:K; try reflexivity.
+           simpl in IHx. apply IHx. intros y Hy. inversion Hy; subst. apply H. eapply SA_embed_ptr; eassumption.
   - apply IH. intros x Hx. apply H. constructor. assumption.
   - rewrite Forall_forall in IH. rewrite forallb_forall. intros x Hin. apply (IH x Hin).
     intros y Hy. apply H. eapply SA_slice; eassumption.
